@@ -367,7 +367,10 @@ class Ombott:
             elif isinstance(first, bytes):
                 new_iter = itertools.chain([first], iout)
             elif isinstance(first, str):
-                new_iter = (it.encode(response.charset) for it in itertools.chain([first], iout))
+                # encode the first chunk now: a failure must become a 500, not
+                # an exception in the server after the headers are sent
+                first = first.encode(response.charset)
+                new_iter = itertools.chain([first], (it.encode(response.charset) for it in iout))
             else:
                 out = HTTPError(500, f'Unsupported response type: {type(first)}')
                 continue                                         # -----------------^
